@@ -108,7 +108,7 @@ def run(ctx):
     if ex.build():
         def rel(p):
             return p["kind"] == "crash" or any(k in p["msg"] for k in ("packet-", "monitor-region-", "never-returns"))
-        rtx.explore(ctx, ex, ["delay", "delay", "single", "mon", "avgtwo"], 30 if ctx.tier == "thorough" else 5, 8 if ctx.tier == "thorough" else 4, rel)
+        rtx.explore(ctx, ex, ["delay", "delay", "single", "mon", "avgtwo", "avgtwo", "avgtwo"], 30 if ctx.tier == "thorough" else 5, 8 if ctx.tier == "thorough" else 4, rel)
         ctx.cov["pipeline_runs"] = {"runs": ex.stats["runs"], "per_class": ex.stats["per_class"], "oracle_kinds_hit": ex.stats["oracle_kinds"],
                                     "cosim_ok": ex.stats["cosim_ok"]}
         ctx.cov["evaluations"] += ex.stats["runs"]
